@@ -363,6 +363,11 @@ def pipeline_part(n, rng, res):
                         res.viol("accepted_completion_adds_dihalogen_to_products",
                                  case={"reaction": row["input_reaction"]}, added=bad,
                                  new_reaction=row["reaction"], where="pipeline")
+                    # the accepted completion, as the client sees it: what was added fills the imbalance exactly
+                    if oracle.balanced(row["reaction"]) is not True:
+                        res.viol("completion_does_not_add_up", case={"reaction": row["input_reaction"],
+                                                                     "vector": oracle.imbalance(row["input_reaction"])},
+                                 got=oracle.imbalance(row["reaction"]), where="pipeline_row")
     finally:
         SyntheticRuleImputer.single_impute = staticmethod(orig)
     for entry, out, db in calls:
@@ -377,8 +382,13 @@ def conclude_args(res, tier, seed):
     if wd > 0.2 * max(calls, 1):
         res.incon("%d matcher calls hit the watchdog" % wd)
     ex = res.counters.get("exhaustive_vectors:manager", 0) == res.counters.get("exhaustive_space:manager", -1)
+    need_pipe = {"single_impute_with_solution:pipeline": 20}
+    if res.counters.get("single_impute_with_solution:pipeline", 0) == 0 and res.counters.get("rule_based_rows", 0) >= 20:
+        # the pipeline does not go through single_impute (another implementation of the bulk imputer): the
+        # rule-based rows it produced were judged at the client boundary instead
+        need_pipe = {"rule_based_rows": 20}
     return {"need": {"records_checked": 60, "matcher_calls": 3000, "vectors_with_solution": 200,
-                     "single_impute_with_solution:direct": 50, "single_impute_with_solution:pipeline": 20,
+                     "single_impute_with_solution:direct": 50, **need_pipe,
                      "constraint_accepted": 30, "mixed_sign_vectors": 500},
             "min_cases": 200,
             "extra": {"exhaustive_subspace": "imbalance vectors up to %d atoms x charge -2..2 over the shipped "
